@@ -273,6 +273,28 @@ fn run_case(input: &str) -> Outcome {
                 o = o.violation("unlisted-namespace-removed", format!("namespace {} lost references but is not among the returned remotes", label(name)));
             }
         }
+        // repeated cleaning (theorem `clean_idempotent`): a second `clean` of what the first one left
+        // deletes nothing, reports nothing and keeps the local node's and the delegates' namespaces
+        if res.is_ok() {
+            match catch(|| storage.clean(rid)) {
+                Err(m) => o = o.violation("second-clean-panic", m),
+                Ok(Err(e)) => o = o.violation("second-clean-error", format!("clean succeeded, cleaning again fails: {e}")),
+                Ok(Ok(ids2)) => {
+                    let after2: Snapshot = if repo_path.exists() {
+                        snapshot(&git::raw::Repository::open_bare(&repo_path).unwrap())
+                    } else {
+                        BTreeMap::new()
+                    };
+                    if after2 != after || !ids2.is_empty() {
+                        o = o.violation(
+                            "second-clean-not-idempotent",
+                            format!("cleaning again removed more (reported {}; namespaces {} -> {})", show_ids(&ids2), after.len(), after2.len()),
+                        );
+                    }
+                    o = o.tag("second-clean");
+                }
+            }
+        }
         if let Ok(ids) = &res {
             for id in ids {
                 if protected.contains(&id.to_string()) {
